@@ -81,7 +81,7 @@ func boundaryTimes() []time.Time {
 }
 
 // zones: the instant must be encoded, whatever location the time.Time carries
-var zones = []*time.Location{time.UTC, time.FixedZone("CET", 3600), time.FixedZone("CEST", 7200), time.FixedZone("W", -8 * 3600), time.FixedZone("odd", 5*3600 + 45*60)}
+var zones = []*time.Location{time.UTC, time.FixedZone("CET", 3600), time.FixedZone("CEST", 7200), time.FixedZone("W", -8*3600), time.FixedZone("odd", 5*3600+45*60)}
 
 func C15() *runner.Property {
 	return &runner.Property{
